@@ -91,8 +91,22 @@ func stdFailures(o *fw.Out, res *sess.Result, ctx string) bool {
 		o.Viol("read-storm", ctx+fmt.Sprintf(" more than %d consecutive failing reads after the terminal input ended/failed without Readline returning", sess.MaxFaultReads))
 		return false
 	case res.CPUSpin:
-		o.Viol("cpu-spin:"+topRepoFrames(sess.ReadlineStack(res.Dump)), ctx+" CPU limit exceeded inside one call\n"+trimStack(sess.ReadlineStack(res.Dump)))
 		o.O.Recycle = true
+		maxLen := 0
+		for _, w := range res.Waits {
+			if n := len(w.Line); n > maxLen {
+				maxLen = n
+			}
+		}
+		if maxLen > 4096 {
+			o.Inc("CPU limit exceeded with a buffer beyond the stated 4 KiB bound (numeric arguments multiplied the text)")
+			return false
+		}
+		kind := "cpu-spin"
+		if res.MemBlowup {
+			kind = "mem-runaway"
+		}
+		o.Viol(kind+":"+commandFrame(sess.ReadlineStack(res.Dump)), ctx+" CPU/memory limit exceeded inside one call\n"+trimStack(sess.ReadlineStack(res.Dump)))
 		return false
 	case res.Deadlock:
 		o.Viol("deadlock:"+topRepoFrames(sess.ReadlineStack(res.Dump)), ctx+" Readline goroutine blocked in library code\n"+trimStack(sess.ReadlineStack(res.Dump)))
@@ -109,6 +123,38 @@ func stdFailures(o *fw.Out, res *sess.Result, ctx string) bool {
 		return false
 	}
 	return true
+}
+
+// commandFrame names the function running directly under Shell.execute (the bound command), or
+// directly under Shell.Readline, in a goroutine stanza: a stable signature for a spin, whatever
+// leaf function the dump happened to catch.
+func commandFrame(stack string) string {
+	var fns []string
+	for _, l := range strings.Split(stack, "\n") {
+		if l == "" || strings.HasPrefix(l, "\t") || strings.HasPrefix(l, "goroutine ") {
+			continue
+		}
+		if i := strings.LastIndex(l, "("); i > 0 {
+			l = l[:i]
+		}
+		fns = append(fns, l)
+	}
+	short := func(fn string) string {
+		fn = strings.TrimPrefix(fn, "github.com/reeflective/readline")
+		fn = strings.TrimPrefix(fn, "/")
+		return strings.TrimPrefix(fn, "internal/")
+	}
+	for _, anchor := range []string{".(*Shell).execute", ".(*Shell).Readline"} {
+		for i, f := range fns {
+			if strings.HasSuffix(f, anchor) && i > 0 {
+				return short(fns[i-1])
+			}
+		}
+	}
+	if len(fns) > 0 {
+		return short(fns[0])
+	}
+	return "unknown"
 }
 
 func trimStack(s string) string {
